@@ -475,6 +475,20 @@ class EGen:
     h = self.fresh("h")
     return [f"def {h}() -> int:", f"  yield {self.either()}"]
 
+  def b_directive_time(self):
+    """Errors pytype logs while it parses directive comments."""
+    v = self.fresh()
+    k = self.r.randrange(5)
+    if k == 0:
+      return [f"{v} = {self.clean()}  # pytype: disable=bogus-error-name"]
+    if k == 1:
+      return [f"{v} = [", "    1,  # type: int", "    2]"]
+    if k == 2:
+      return [f"{v} = {self.either()}  # pytype: frobnicate=yes"]
+    if k == 3:
+      return [f"{v} = f2({self.either()},  # pytype: enable=not-an-error", f"       {self.either()})"]
+    return [f"{v} = {self.clean()}  # pytype: disable"]
+
   BLOCKS = [
       ("single", 3), ("same_line", 3), ("adjacent", 2), ("mlcall", 5), ("nested", 4), ("chain", 2),
       ("decorated", 4), ("decorated_class", 2), ("implicit", 4), ("with", 3), ("comprehension", 2),
@@ -482,7 +496,7 @@ class EGen:
       ("class_body", 2), ("override", 1), ("semicolon", 1), ("backslash", 1), ("literal_ml", 1),
       ("lambda", 1), ("called_from", 1), ("assert", 1), ("augassign", 1), ("try", 1), ("import", 2),
       ("mlstring", 1), ("annassign", 3), ("misc_stmt", 2), ("nested_def", 1), ("match", 1),
-      ("generator", 1),
+      ("generator", 1), ("directive_time", 1),
   ]
 
   def program(self, nblocks):
